@@ -185,6 +185,13 @@ func onewayMain(args []string) {
 				if sum.tooMany() {
 					continue
 				}
+				if sh.dead {
+					nsh, err := sh.renew()
+					if err != nil {
+						fatal(err)
+					}
+					sh = nsh
+				}
 				runOW(sh, c, exp[strconv.Itoa(c.id)], sum)
 			}
 		}()
@@ -203,8 +210,10 @@ func runOW(sh *shard, c *owCase, expLine string, sum *sumT) {
 	token := fmt.Sprintf("o%d", c.id)
 	caseLine := c.line()
 	fail := func(expd, obs, detail string) {
-		sum.mismatch(Mismatch{Property: "C06", Case: caseLine, Expected: expd, Observed: obs, Detail: detail})
+		timeout := strings.Contains(obs, "within")
+		sh.caseFail(Mismatch{Property: "C06", Case: caseLine, Expected: expd, Observed: obs, Detail: detail}, timeout)
 	}
+	defer sh.caseEnd(sum)
 	// expected deliveries from the model
 	want := map[uint32]string{}
 	for _, f := range strings.Fields(expLine) {
@@ -377,7 +386,7 @@ func runOW(sh *shard, c *owCase, expLine string, sum *sumT) {
 	for _, nid := range c.cfg {
 		node := sh.node(nid)
 		if !waitFor(3*time.Second, func() bool { return routers(node) == 0 }) {
-			sum.mismatch(Mismatch{Property: "C18", Case: caseLine, Expected: "no router left", Observed: fmt.Sprintf("%d routers on node %d", routers(node), nid)})
+			sh.caseFail(Mismatch{Property: "C18", Case: caseLine, Expected: "no router left", Observed: fmt.Sprintf("%d routers on node %d", routers(node), nid)}, true)
 		}
 	}
 	sum.count("variant:" + c.method)
